@@ -110,6 +110,9 @@ func RunW1(p *Profile, plan, sched *simrt.Source, trace bool) *RunOut {
 	}
 	evolveOps = evolveByCall
 	limitEndlessLoops(sc, &cfg)
+	if len(universe) > 8 && cfg.StepCap < 3000000 {
+		cfg.StepCap = 3000000
+	}
 	o.Describe = func() []string {
 		out := []string{fmt.Sprintf("config: strategy=%d stick=%d‰ shuffleMaps=%v psites=%d‰ stall=%d", cfg.Strategy, cfg.StickPermil, cfg.ShuffleMaps, cfg.PProb, cfg.StallSteps)}
 		for _, r := range order {
